@@ -106,6 +106,14 @@ CHECKS["C13"] = ("property-based testing (Hypothesis) with an independent valida
             "JSON-encoded output is validated against the output schema, and the input schema's structure is compared with what the parser does on probe inputs.",
             "Trusted: jsonschema 4.26 (Draft 2020-12), Python json, one known-valid probe value per field type; silent zones in ASSUMPTIONS.", "3/C13")
 
+CHECKS["C15"] = ("grammar-based property-based testing (Hypothesis) with an independent validator: schemas generated from the supported keyword fragment, instances valid-by-construction / mutated / arbitrary; build must not raise, strict-mode outputs validated against the source schema by the jsonschema package",
+            "hypothesis",
+            "Exploration: JSON Schemas from a grammar over type/format/numeric/length/pattern/enum/const/items/prefixItems/properties/required/additionalProperties/"
+            "dependentRequired/min-maxProperties/anyOf/oneOf/allOf (with and without type), nested to depth 2-3, with hostile property names; JsonSchemaParser must build a type, "
+            "and whatever that type returns under no_explicit_cast+no_data_loss is validated against the source schema. Root causes are keyed by the first node on the failing "
+            "path whose keywords the translator skips.",
+            "Trusted: jsonschema 4.26 (Draft 2020-12) as the meaning of the schema; utype.JSONEncoder for publishing outputs.", "3/C15")
+
 NOT_YET = "check not built yet in this round (planned, see DESIGN.md section 3)"
 
 
